@@ -109,7 +109,7 @@ def cases(tier, rng):
     # 4. batch products: sizes 0,1,2,3,7,8,9,64, mixed degrees, zero / one / stored-zero factors
     for f in ("b", "x"):
         for n in (0, 1, 2, 3, 7, 8, 9, 64):
-            for variant in range(3 if f == "b" else 2):
+            for variant in range(3 if (f == "b" or big) else 2):
                 degs = [rng.choice((0, 1, 1, 2, 3, 5, 8)) for _ in range(n)]
                 if variant == 1 and n:
                     degs[rng.randrange(n)] = 40                 # one big factor: unbalanced tree
@@ -152,9 +152,18 @@ def cases(tier, rng):
                 if da < 0 or db < 0:
                     continue
                 for ff in FIELDS2:
-                    if k > 9 and ff != "bb" and (da, db) != (dsum // 2, dsum - dsum // 2):
+                    balanced = (da, db) == (dsum // 2, dsum - dsum // 2)
+                    if k > 8 and not big:
+                        # quick tier: the extension field costs ~10x; keep every size for bb, thin out the rest
+                        if ff == "bb" and (da, db) == (dsum - 1, 1):
+                            continue
+                        if ff == "xx" and not (balanced and (k <= 10 or dsum == 2**k - 1)):
+                            continue
+                        if ff in ("bx", "xb") and not (balanced and k <= 10 and dsum != 2**k - 2):
+                            continue
+                    if k > 9 and ff != "bb" and not balanced:
                         continue
-                    if k > 11 and ff in ("bx", "xb"):
+                    if k > 12 and ff in ("bx", "xb"):
                         continue
                     f1, f2 = f12(ff)
                     sparse = k > 8
@@ -168,7 +177,7 @@ def cases(tier, rng):
         if k >= 2 and k <= kmax - 1:
             for deg in (2**(k - 1) - 1, 2**(k - 1)):
                 for f in ("b", "x"):
-                    if f == "x" and k > 10:
+                    if f == "x" and k > (10 if big else 9):
                         continue
                     a = poly(rng, f, deg, k > 8)
                     add("pow2-boundary", "fastsq %s %s" % (f, grp(a)))
@@ -198,7 +207,7 @@ def cases(tier, rng):
         for n in (0, 1, 2, 255, 256):
             add("shift", "xtothe %s %d" % (f, n))
     # 8. random
-    nrand = 3000 if big else 500
+    nrand = 3000 if big else 300
     for _ in range(nrand):
         ff = rng.choice(FIELDS2)
         f1, f2 = f12(ff)
